@@ -86,17 +86,6 @@ Proof.
 Qed.
 
 (* ------------------------------------------------------------------ tensor_train *)
-(* the ranks to the right of each core, as produced by the clipping recursion *)
-Fixpoint tt_ranks (rk : nat) (shape ranks : list nat) : list nat :=
-  match shape with
-  | [] => []
-  | s :: rest =>
-      match rest with
-      | [] => [1]
-      | _ :: _ => let cur := Nat.min (Nat.min (rk * s) (prod rest)) (hd 0 ranks) in cur :: tt_ranks cur rest (tl ranks)
-      end
-  end.
-
 Definition tt_cur (rk s : nat) (rest ranks : list nat) : nat := Nat.min (Nat.min (rk * s) (prod rest)) (hd 0 ranks).
 Lemma tt_cores_cons rk s rest ranks : rest <> [] ->
   tt_cores rk (s :: rest) ranks = [rk; s; tt_cur rk s rest ranks] :: tt_cores (tt_cur rk s rest ranks) rest (tl ranks).
@@ -193,7 +182,8 @@ Proof.
       + destruct (length shape <=? 1); [discriminate|]. inversion E; subst.
         apply tt_boundary_mid; [now rewrite frac_ranks_length, avg_dims_length | exact Hl]. }
   simpl in H. destruct ao; inversion H; subst; [exact Hb|].
-  unfold tt_clip. apply tt_boundary_mid; [now rewrite map_length, seq_length | exact Hl].
+  unfold tt_clip, tt_boundary. split; [simpl; now rewrite tt_ranks_length|]. split; [reflexivity|].
+  rewrite last_cons_ne by (now apply tt_ranks_ne). now apply tt_ranks_last.
 Qed.
 
 Lemma nth_last {A} (l : list A) d : forall n, length l = S n -> nth n l d = last l d.
